@@ -1,3 +1,4 @@
 import SideVerif.Layer.Graph
 import SideVerif.Proofs.Bfs
 import SideVerif.Properties.C10
+import SideVerif.Drive.All
